@@ -25,6 +25,22 @@ pub(crate) trait ToFileTime {
 
 impl ToFileTime for Timestamp {
     fn to_file_time(&self) -> FileTime {
-        FileTime::from_unix_time(self.as_second(), self.subsec_nanosecond().cast_unsigned())
+        let (seconds, nanos) = floor_seconds_and_nanos(self);
+        FileTime::from_unix_time(seconds, nanos)
+    }
+}
+
+/// Split a timestamp into whole seconds rounded towards negative infinity, and a
+/// non-negative nanosecond fraction.
+///
+/// This is the representation used by Unix `timespec` and by the index, and unlike
+/// jiff's own accessors it never yields a negative fraction for times before 1970.
+pub(crate) fn floor_seconds_and_nanos(t: &Timestamp) -> (i64, u32) {
+    let seconds = t.as_second();
+    let nanos = t.subsec_nanosecond();
+    if nanos < 0 {
+        (seconds - 1, (nanos + 1_000_000_000) as u32)
+    } else {
+        (seconds, nanos as u32)
     }
 }
